@@ -131,7 +131,15 @@ def one(ctx, rng, linear, spec=None):
         # the reference integrates the rate equations written out from the reaction definitions (not the interface's own
         # derivative: what the implementation hands back is an observation, never the oracle)
         from modelspec import independent_rhs
-        f = independent_rhs(spec, sl)
+        f0 = independent_rhs(spec, sl)
+        calls = [0]
+
+        def f(t, x):
+            # (the reference is Python arithmetic: a stiff model would keep the explicit integrator busy for minutes)
+            calls[0] += 1
+            if calls[0] > 40000:
+                raise FloatingPointError("stiff")
+            return f0(t, x)
         try:
             sol = solve_ivp(f, (float(T[0]), float(T[-1])), x0, method="DOP853", t_eval=T, rtol=1e-12, atol=1e-12)
         except (TypeError, ValueError, FloatingPointError, OverflowError, ZeroDivisionError):
